@@ -8,11 +8,11 @@ ASSUME = ("Trusted base: the Go toolchain (go1.23.5) as semantics oracle; the ve
           "never 'verified'. ")
 
 # id -> (engine, technique, level text, level note)   (only claimed properties)
-E1NOTE = ASSUME + "Trusted base of E1: iter.Pull, the ~60-line reference coroutine runtime (probes/ref), the trace package (probes/tr), the dual renderer's marker table (harness/internal/render). Programs outside the generator's grammar, tapes beyond the bit bound and quarantined known-finding classes (KNOWN_FINDINGS.txt) are not covered. "
+E1NOTE = ASSUME + "Trusted base of E1: iter.Pull, the ~60-line reference coroutine runtime (probes/ref), the trace package (probes/tr), the dual renderer's marker table (harness/internal/render). Every other package of a run is compiled through rewriter.GoGen (the go:generate entry point: files renamed *_co.go under the build tag co), the others through rewriter.Compile; the body of every directed generator additionally runs in other syntactic contexts (2 of 15 wrapper kinds per program in the quick tier, all in the thorough tier). Programs outside the generator's grammar, tapes beyond the bit bound and quarantined known-finding classes (KNOWN_FINDINGS.txt) are not covered. "
 CHECKS = {
  "C01": ("E1 diff-trace",
          "runtime differential monitor: real compiler output vs the same Go text on a reference coroutine runtime (iter.Pull), value/termination projection of the event trace; directed + bounded-exhaustive + PRNG programs x all decision-tape paths",
-         "Exploration: directed shapes + every well-formed statement tree up to 3 nodes (5 thorough, capped) + PRNG programs, each compiled by the real rewriter (stand-alone driver) and run under every decision-tape path (depth-first, capped) with drain and truncated histories; the MoveNext/Current projection must equal the reference coroutine's.",
+         "Exploration: directed shapes (+ context variants) + every well-formed statement tree up to 3 nodes (5 thorough, capped; default clauses at any textual position) + PRNG control-flow, scope and transformer (generators that consume iterators) programs, each compiled by the real rewriter (stand-alone driver) and run under every decision-tape path (depth-first, capped) with drain and truncated histories; the MoveNext/Current projection must equal the reference coroutine's.",
          E1NOTE),
  "C02": ("E1 diff-trace",
          "runtime monitor of the full interleaved event log (consumer call/return markers + generator-side effects and expression evaluations) vs the reference coroutine, every truncation history, plus no-event-after-stop",
@@ -20,39 +20,39 @@ CHECKS = {
          E1NOTE),
  "C03": ("E1 diff-trace",
          "runtime monitor of variable-read events (tr.R) and yielded values of scope-stressing programs vs the reference coroutine (Go's own scoping is the oracle)",
-         "Exploration: directed shadowing/capture cases + PRNG programs over a 4-name pool (shadowing in nested blocks, if/for/switch/type-switch initialisers, range variables, case clauses, closures created before a yield and called after it, yielding post statements reading body-shadowed names); full-trace equality under every tape path.",
+         "Exploration: directed shadowing/capture cases + PRNG programs over a 4-name pool (shadowing in nested blocks, if/for/switch/type-switch initialisers, range variables, case clauses, closures created before a yield and called after it, yielding post statements reading body-shadowed names, init clauses declaring several variables, partial redeclarations behind aliases); full-trace equality under every tape path.",
          E1NOTE + "Scratch modules use language version go1.23 (per-iteration loop variables): the single known finding of C03 depends on that."),
  "C04": ("E1 diff-trace",
          "runtime differential monitor: range loops inside compiled generators vs Go's native range statement executing the same text on the reference coroutine; systematic kinds x forms x bodies x mutations",
-         "Exploration: the whole systematic cross product (both tiers; ~2900 programs) of 43 collection kinds (strings, slices, arrays, maps, channels, integers incl. constants / typed constants / calls, literal conversions []rune(s) / []byte(s) / string(bs), defined and directional collection types, element types of every kind, and the kinds the compiler leaves native: pointer to array incl. nil, range over func) x up to 8 variable forms x 10 body shapes (yielding, native, in a closure, break/continue, nested, iteration variable updated, captured by closures ...) x mutations of the ranged collection, + directed cases; the thorough tier adds the other wrapping variant of every range expression and a second generator form; full-trace equality, range expression evaluation counted.",
+         "Exploration: the whole systematic cross product (both tiers; ~4000 programs) of 48 collection kinds (strings, slices, arrays, maps, channels, integers incl. constants / typed constants / calls, copying and non-copying conversions ([]rune(s), []byte(s), string(bs), text(bs), string(rs), ints(xs), arr[:]) whose SOURCE is mutated during the loop, defined and directional collection types, element types of every kind, and the kinds the compiler leaves native: pointer to array incl. nil, range over func) x up to 8 variable forms x 11 body shapes (yielding, native, in a closure, break/continue, nested, iteration variable updated, captured by closures ...) x mutations of the ranged collection, + directed cases; the thorough tier adds the other wrapping variant of every range expression and a second generator form; full-trace equality, range expression evaluation counted.",
          E1NOTE + "Multi-entry maps are compared as sorted multisets (map order is random)."),
  "C05": ("E1 diff-trace",
          "runtime monitor of delegating generator call graphs vs the reference coroutine (full interleaved trace incl. argument evaluation and delegate-side effects), plus metamorphic twins with the delegation spelled out as a range loop",
-         "Exploration: directed delegation cases (depth-3000 chain drained completely, recursion, partially consumed / twice-delegated iterators, for-post and switch positions, generic and method generators) + PRNG call graphs, each also as spelled-out twin; all tape paths and truncation histories.",
+         "Exploration: directed delegation cases (depth-3000 chain drained completely, recursion, partially consumed / twice-delegated iterators, for-post and switch positions, generic and method generators) + PRNG call graphs (delegation inside loops of every form incl. loops without condition and ranges over an integer that changes during the loop), each also as spelled-out twin; all tape paths and truncation histories.",
          E1NOTE),
  "C06": ("E1 diff-trace",
          "runtime monitor of consumer-side code in processed files (range / pull over iterators) vs Go's range-over-func on the reference coroutine; generator-side effects make over-pulling visible; build of the output checks complete type replacement",
-         "Exploration: directed + PRNG consumer functions (range := / = with break/continue/return, nested ranges, pull-range-pull on one iterator, iterators in struct fields, maps, slices, arrays, channels, closures, func slices, generic boxes, generic and method generators, helper functions) in 5 import styles; full-trace equality under every tape path; an unbuildable output counts as a violation.",
+         "Exploration: directed + PRNG consumer functions (range := / = with break/continue/return, nested ranges, pull-range-pull on one iterator, iterators in struct fields, maps, slices, arrays, channels, closures, func slices, generic boxes, generic and method generators, helper functions) and PRNG transformer generators (range over an iterator with a yielding body, break / continue / return in front of and behind the yield, in if / switch / type-switch / loop / block contexts, = binding, hand pulls, statements after every loop) in 5 import styles; full-trace equality under every tape path; an unbuildable output counts as a violation.",
          E1NOTE),
  "C07": ("E1 diff-trace + hook H1",
          "runtime differential monitor between the two real artefacts: unoptimised stage-1 package (snapshot by the verif hook inside the real Compile) vs optimised package, full interleaved traces; build of the final package",
-         "Exploration: all E1 streams + optimiser-directed cases; stage-1 and final packages are both built and executed under every tape path and history; traces must be identical and the final package must build whenever stage-1 does; the evidence counts in how many programs the optimiser actually changed the text.",
+         "Exploration: all E1 streams + optimiser-directed cases (incl. hand-written seq code whose Delay returns a combinator call over every kind of argument expression); stage-1 and final packages are both built and executed under every tape path and history; traces must be identical and the final package must build whenever stage-1 does; the evidence counts in how many programs the optimiser actually changed the text.",
          E1NOTE + "Stage-1 files get one appended dummy use of the go-co import (stage 1 never cleans imports)."),
  "C11": ("E1 diff-trace (acceptance)",
          "runtime monitor of the real compile entry point (stand-alone binary: panic = rejection) and of `go build` of the generated package, over the supported-subset program streams x import styles",
-         "Exploration: every supported-subset program of the streams in 5 import styles; a compiler panic or an unbuildable generated package is attributed to a single program by re-running it alone.",
+         "Exploration: every supported-subset program of the streams in 5 import styles and 6 generator forms, explicit instantiations of the API functions, names of the file's own imports bound by every kind of declaration, edge cases additionally each in a file of its own; a compiler panic or an unbuildable generated package is attributed to a single program by re-running it alone.",
          E1NOTE),
  "C14": ("E5 schedules + race detector",
          "runtime monitor of per-iterator records under enumerated interleavings (solo record as oracle) and goroutine-parallel consumption under the Go race detector (GORACE log files, DATA RACE blocks counted and de-duplicated)",
-         "Exploration: 25 closed generator kinds (ONE generic generator at nine element types incl. three interface types; stateless loop VALUES kept in package variables; ranges over four different non-ASCII strings, slices, maps; recursion; closures; one raw term) + parents that yield child generators capturing their range variables (children consumed at once / deferred / reversed / round-robin); all pairs x all 70 interleavings of 4 advances, PRNG triples x all interleavings of 3 (4) advances, PRNG 4-iterator schedules; 16 (64) goroutines x 40 (200) rounds x 3 (20) race-detector runs with PRNG Gosched; every iterator's record must equal its solo record, zero race reports, no panic; the evidence counts distinct schedules and distinct goroutine interleavings actually observed.",
+         "Exploration: 28 closed generator kinds (incl. hand-written BindRecv generators driven by MoveNext, by Send, and a Send-driven relay that advances an inner generator by MoveNext) (ONE generic generator at nine element types incl. three interface types; stateless loop VALUES kept in package variables; ranges over four different non-ASCII strings, slices, maps; recursion; closures; one raw term) + parents that yield child generators capturing their range variables (children consumed at once / deferred / reversed / round-robin); all pairs x all 70 interleavings of 4 advances, PRNG triples x all interleavings of 3 (4) advances, PRNG 4-iterator schedules; 16 (64) goroutines x 40 (200) rounds x 3 (20) race-detector runs with PRNG Gosched, each followed by a COLD-START run (a fresh -race process whose goroutines are the first users of the runtime); every iterator's record must equal its solo record, zero race reports, no panic; the evidence counts distinct schedules and distinct goroutine interleavings actually observed.",
          ASSUME + "The race detector only speaks about interleavings that happened."),
  "C15": ("E6 determinism",
          "runtime monitor of output bytes across fresh compiler processes and perturbed configurations (byte comparison, sha256), helper-identifier uniqueness by parsing the outputs",
-         "Exploration: generated + repository source files compiled alone (repeated, GOMAXPROCS 1/4/16), among extra files, among other packages, as second Compile of a process, into pre-populated dst/dst_tmp (incl. a file only <dst>_tmp holds: nothing without a source may reach dst, a pre-existing <dst>_tmp must survive), under a different root path, after a rejected run, with unrelated in-package and external test files, with the file that declares shared constants / variables processed in the same run or not; every generated file byte-identical to the first configuration.",
+         "Exploration: generated + repository source files compiled alone (repeated, GOMAXPROCS 1/4/16), among extra files, among other packages, as second Compile of a process, into pre-populated dst/dst_tmp (incl. a file only <dst>_tmp holds: nothing without a source may reach dst, a pre-existing <dst>_tmp must survive), under a different root path, after a rejected run, with unrelated in-package and external test files, with the file that declares shared constants / variables processed in the same run or not, with consumer-only files (no generator) sorting before and after all others; every generated file byte-identical to the first configuration.",
          ASSUME + "Process-level nondeterminism (map seeds, scheduling) is sampled by repeated fresh processes."),
  "C16": ("E7 gogen-fs",
          "runtime monitor of the real cmd/cogen under `go generate`: directory snapshots (path, mode, sha256) of module root and parent before/after, strace file-syscall log (thorough), go build / go test / go vet -tags co, second-run snapshot",
-         "Exploration: 16 (thorough 50) module layouts (incl. types / constants of a sub-package generated in the same run, co test file only in a sub-package, directive only in a sub-package, a co file with a foreign generated-code header, a main package with a //go:debug directive that is run after generation, plain-sibling variables yielded by generators and observed by a plain test) and three history steps (edit the co file; edit a plain sibling; turn a constant of a generated sub-package into a variable), each compared with a generation from scratch; the snapshot difference must be exactly the expected derived files with the prescribed header; nothing else created, modified, deleted or left behind; package builds/tests/vets afterwards; second run byte-identical.",
+         "Exploration: 19 (thorough 53) module layouts (incl. the directive in a plain doc.go run by a bare `go generate ./...`, generated files of other runs / other GOOS / nested modules / testdata that must stay untouched, a dot import of a sub-package generated in the same run, imports only used by dead code whose package registers itself through init or through a variable initialiser, types / constants of a sub-package generated in the same run, co test file only in a sub-package, directive only in a sub-package, a co file with a foreign generated-code header, a main package with a //go:debug directive that is run after generation, plain-sibling variables yielded by generators and observed by a plain test) and three history steps (edit the co file; edit a plain sibling; turn a constant of a generated sub-package into a variable), each compared with a generation from scratch; the snapshot difference must be exactly the expected derived files with the prescribed header; nothing else created, modified, deleted or left behind; package builds/tests/vets afterwards; second run byte-identical.",
          ASSUME + "Layouts are small synthetic packages; the go tool sets GOFILE etc. exactly as for a user."),
  "C17": ("E4 stack-depth",
          "runtime monitor: runtime.Callers depth sampled inside loop bodies/conditions of compiled generators and raw seq loops at iteration indices 2..n, one child process per configuration; bounded-growth oracle",
@@ -64,11 +64,11 @@ CHECKS = {
          E1NOTE + "Nothing is compared after the panicking call (the property does not specify it)."),
  "C12": ("E1 diff-trace (rejection outcomes)",
          "runtime monitor of compile outcomes and, when compilation succeeds, of the trace vs the reference coroutine in which the unsupported construct executes natively; a co.go trap overlay observes surviving Yield stub calls directly",
-         "Exploration: 22 unsupported constructs x up to 5 statement positions + the API used as a value / in plain closures + signature cases + 12 negative controls + 200 (1400) PRNG injections, one real compiler invocation each; outcome classes rejected / unbuildable / equivalent are fine, divergent or STUB-YIELD is a violation; negative controls must be accepted and equivalent.",
+         "Exploration: 22 unsupported constructs x up to 5 statement positions + PRNG injection of 16 construct families (incl. labelled loops whose label is only used from inside a switch / select / inner loop of their own body, labelled switches, defer around the last yield) + the API used as a value / in plain closures + signature cases + 12 negative controls + 200 (1400) PRNG injections, one real compiler invocation each; outcome classes rejected / unbuildable / equivalent are fine, divergent or STUB-YIELD is a violation; negative controls must be accepted and equivalent.",
          E1NOTE),
  "C13": ("E1 diff-trace (native source as reference)",
          "runtime differential monitor: the source package built natively vs the generated package on the same driver, result/effect traces; build of the generated package",
-         "Exploration: directed bystander declarations (closure shapes func(ps){return f(ps)} over every kind of callee incl. generic seq functions with inferred type arguments and call-depth-sensitive standard functions, hand-written seq code with effectful arguments, constants, initialisers, methods, directives) co-located with generators + 150 (2000) PRNG bystanders; generators (G) and plain closures (P) nested into each other in every order up to depth 4; the scoping directed cases (closures / pointers of ordinary code inside generators); the natively built source (or the reference coroutine for code inside generators) is the oracle.",
+         "Exploration: directed bystander declarations (closure shapes func(ps){return f(ps)} over every kind of callee incl. generic seq functions with inferred type arguments and call-depth-sensitive standard functions, hand-written seq code with effectful arguments, constants, initialisers, methods, directives) co-located with generators + 150 (2000) PRNG bystanders; generators (G) and plain closures (P) nested into each other in every order up to depth 4; the scoping directed cases (closures / pointers of ordinary code inside generators); range loops of every kind x form x mutation inside plain closures of generators; the natively built source (or the reference coroutine for code inside generators) is the oracle.",
          E1NOTE),
  "C08": ("E2 seq-model",
          "runtime differential monitor: real seq terms driven through the public API vs a big-step reference interpreter; bounded-exhaustive term enumeration + PRNG terms + metamorphic Combine laws",
@@ -76,7 +76,7 @@ CHECKS = {
          ASSUME + "The ~60-line reference interpreter (probes/seqmodel) is the specification; only well-formed terms (Break/Continue under a loop) are generated."),
  "C09": ("E2 seq-model",
          "runtime monitor of call histories: exhaustive histories over {MoveNext, Current, Send, Result} vs a 3-state protocol model, return values + generator-side effect log",
-         "Exploration: every history of length <= 6 (8 thorough) over 5 operations x 44 generators (0..3 yields, Bind/BindRecv mixes, ending by fall-off / Return / ReturnValue also from inside loops and from the first half of (nested) Combines, yield sites outside any Delay, generators that read Current() of their own iterator during an advance, two infinite echo loops), exhaustively; every call's return value and the cumulative effect log are compared with the model; every history of length <= 5 additionally on TWO iterators started from ONE Seq value and advanced alternately.",
+         "Exploration: every history of length <= 6 (8 thorough) over 5 operations x 44 generators (0..3 yields, Bind/BindRecv mixes, ending by fall-off / Return / ReturnValue also from inside loops and from the first half of (nested) Combines, yield sites outside any Delay, generators that read Current() of their own iterator during an advance, two infinite echo loops), exhaustively; every call's return value and the cumulative effect log are compared with the model (a call that causes more than 4000 generator-side effects is cut and recorded: logical step bound, no clock); every history of length <= 5 additionally on TWO iterators started from ONE Seq value and advanced alternately.",
          ASSUME + "The protocol model is written from the property text; Result is compared only after completion."),
  "C10": ("E3 iter-vs-native",
          "runtime differential monitor: seq.New*Iter driven with the compiler's protocol vs Go's native range in the same process, bounded-exhaustive inputs + mutation scripts",
